@@ -106,3 +106,105 @@ package storage
 //@   ensures @check_vs_marker k != m
 //@   ensures @check_vs_changelog k != cc
 //@   ensures @changelog_store cc1 == cc ==> s1 == s2
+
+// ------------------------------------------------------------------ C24 / C16: iterator cache keys (flat fields + 64-bit digest of the filter lists)
+// The per-query filters are canonicalised (one string per element, sorted) before they are hashed: the element strings are
+// pinned here, at the point they are handed to the sort, because the sort itself is outside the verified text.
+
+//@ spec refPart(r ref) string = typeIs(r.GetRelationOrWildcard(), "*openfgav1.RelationReference_Wildcard") ? r.GetType() + ":*" : (typeIs(r.GetRelationOrWildcard(), "*openfgav1.RelationReference_Relation") ? r.GetType() + "#" + as(r.GetRelationOrWildcard(), "*openfgav1.RelationReference_Relation").Relation : r.GetType())
+//@ spec objRelPart(r ref) string = r.GetRelation() != "" ? r.GetObject() + "#" + r.GetRelation() : r.GetObject()
+
+// every type restriction contributes one string that distinguishes type, type#relation and type:* (so [user] and [user:*] differ)
+//@ func copyRelationReferences(a, refs) (w)
+//@   property C24
+//@   option nosafety
+//@   modifies elems(a)
+//@   loop 0 invariant fresh(parts) && len(parts) == $idx + 1 && $idx < len(refs) && forall j int :: 0 <= j && j <= $idx ==> parts[j] == refPart(refs[j])
+//@   loop 1 invariant w == $idx + 1 && w <= len(a) && len(parts) == len(refs) && $idx < len(parts)
+//@   loop 1 invariant @written forall k int :: 0 <= k && k <= $idx ==> typeIs(a[k], "keys.String") && as(a[k], "keys.String") == parts[k]
+//@   loop 1 invariant @from forall k int :: 0 <= k && k <= $idx ==> exists j int :: 0 <= j && j < len(refs) && as(a[k], "keys.String") == refPart(refs[j])
+//@   monitor canonicalParts
+//@     before call slices.Sort args x : assert len(x) == len(refs) && forall j int :: 0 <= j && j < len(x) ==> x[j] == refPart(refs[j])
+//@   ensures @count w == min(len(a), len(refs))
+//@   ensures @elements forall k int :: 0 <= k && k < w ==> typeIs(a[k], "keys.String") && exists j int :: 0 <= j && j < len(refs) && as(a[k], "keys.String") == refPart(refs[j])
+//@   ensures @complete len(a) >= len(refs) ==> forall j int :: 0 <= j && j < len(refs) ==> exists k int :: 0 <= k && k < w && as(a[k], "keys.String") == refPart(refs[j])
+
+//@ func copyObjectRelations(a, rels) (w)
+//@   property C24
+//@   option nosafety
+//@   modifies elems(a)
+//@   loop 0 invariant fresh(values) && len(values) == len(rels) && $idx < len(rels) && forall j int :: 0 <= j && j <= $idx ==> values[j] == objRelPart(rels[j])
+//@   loop 1 invariant w == $idx + 1 && w <= len(a) && len(values) == len(rels) && $idx < len(values)
+//@   loop 1 invariant @written forall k int :: 0 <= k && k <= $idx ==> typeIs(a[k], "keys.String") && as(a[k], "keys.String") == values[k]
+//@   loop 1 invariant @from forall k int :: 0 <= k && k <= $idx ==> exists j int :: 0 <= j && j < len(rels) && as(a[k], "keys.String") == objRelPart(rels[j])
+//@   monitor canonicalParts
+//@     before call slices.Sort args x : assert len(x) == len(rels) && forall j int :: 0 <= j && j < len(x) ==> x[j] == objRelPart(rels[j])
+//@   ensures @count w == min(len(a), len(rels))
+//@   ensures @elements forall k int :: 0 <= k && k < w ==> typeIs(a[k], "keys.String") && exists j int :: 0 <= j && j < len(rels) && as(a[k], "keys.String") == objRelPart(rels[j])
+//@   ensures @complete len(a) >= len(rels) ==> forall j int :: 0 <= j && j < len(rels) ==> exists k int :: 0 <= k && k < w && as(a[k], "keys.String") == objRelPart(rels[j])
+
+// every condition name, the empty "unconditioned" name included, is kept (Conditions=[""] differs from Conditions=nil)
+//@ func copyConditions(a, conditions) (w)
+//@   property C24
+//@   option nosafety
+//@   modifies elems(a)
+//@   loop 0 invariant w == $idx + 1 && w <= len(a) && len(sorted) == len(conditions) && $idx < len(sorted)
+//@   loop 0 invariant @written forall k int :: 0 <= k && k <= $idx ==> typeIs(a[k], "keys.String") && as(a[k], "keys.String") == sorted[k]
+//@   loop 0 invariant @from forall k int :: 0 <= k && k <= $idx ==> exists j int :: 0 <= j && j < len(conditions) && as(a[k], "keys.String") == conditions[j]
+//@   monitor canonicalParts
+//@     before call slices.Sort args x : assert len(x) == len(conditions) && forall j int :: 0 <= j && j < len(x) ==> x[j] == conditions[j]
+//@   ensures @count w == min(len(a), len(conditions))
+//@   ensures @elements forall k int :: 0 <= k && k < w ==> typeIs(a[k], "keys.String") && exists j int :: 0 <= j && j < len(conditions) && as(a[k], "keys.String") == conditions[j]
+//@   ensures @complete len(a) >= len(conditions) ==> forall j int :: 0 <= j && j < len(conditions) ==> exists k int :: 0 <= k && k < w && as(a[k], "keys.String") == conditions[j]
+
+// The three iterator-cache keys: flat (prefix, operation, store, the query's scalar fields) followed by the 64-bit digest of
+// the builder content produced from the filter lists. The digest is taken of exactly the bytes the builder held after the
+// filter arrays were encoded (ghost `hashed`), every filter list is copied completely (array length == list length) and
+// the scalar fields, store first, are length-prefixed fields of the key itself.
+
+//@ func ReadKey(store, filter) (k)
+//@   property C24 C16
+//@   option nosafety
+//@   pure
+//@   option frame_skip H:keys. MemB Mem:
+//@   monitor digestInput
+//@     ghost suffix int = 0
+//@     ghost hashedLen int = -1
+//@     ghost built int = 0
+//@     ghost copied int = -1
+//@     after call storage.copyConditions args arr, cs returning n : copied = (len(arr) == len(filter.Conditions) && cs == filter.Conditions) ? n : -1
+//@     before call (*keys.Builder).EncodeArray args _, arr : assert len(arr) == len(filter.Conditions) && copied == len(arr)
+//@     after call (*keys.Builder).EncodeArray : built = built + 1
+//@     before call (*keys.Digest).Write args _, bs : assert built == 1
+//@     after call (*keys.Digest).Sum64 returning s : suffix = s
+//@   ensures @fields k.data == encString("IC") + encString("READ") + encString(store) + encString(filter.Object) + encString(filter.Relation) + encString(filter.User) + encUint64(suffix)
+
+//@ func ReadUsersetTuplesKey(store, filter) (k)
+//@   property C24 C16
+//@   option nosafety
+//@   pure
+//@   option frame_skip H:keys. MemB Mem:
+//@   monitor digestInput
+//@     ghost suffix int = 0
+//@     ghost built int = 0
+//@     ghost copied int = -1
+//@     after call storage.copyRelationReferences args arr, rs returning n : copied = (len(arr) == len(filter.AllowedUserTypeRestrictions) && rs == filter.AllowedUserTypeRestrictions) ? n : -1
+//@     after call storage.copyConditions args arr, cs returning n : copied = (len(arr) == len(filter.Conditions) && cs == filter.Conditions) ? n : -1
+//@     before call (*keys.Builder).EncodeArray args _, arr : assert copied == len(arr) && (built == 0 ==> len(arr) == len(filter.AllowedUserTypeRestrictions)) && (built == 1 ==> len(arr) == len(filter.Conditions))
+//@     after call (*keys.Builder).EncodeArray : built = built + 1 ; copied = -1
+//@     before call (*keys.Digest).Write args _, bs : assert built == 2
+//@     after call (*keys.Digest).Sum64 returning s : suffix = s
+//@   ensures @fields k.data == encString("IC") + encString("RUT") + encString(store) + encString(filter.Object) + encString(filter.Relation) + encUint64(suffix)
+
+//@ func ReadStartingWithUserKey(store, filter) (k)
+//@   property C24 C16
+//@   option nosafety
+//@   pure
+//@   option frame_skip H:keys. MemB Mem:
+//@   monitor digestInput
+//@     ghost suffix int = 0
+//@     ghost built int = 0
+//@     after call (*keys.Builder).EncodeArray : built = built + 1
+//@     before call (*keys.Digest).Write args _, bs : assert built == 3
+//@     after call (*keys.Digest).Sum64 returning s : suffix = s
+//@   ensures @fields k.data == encString("IC") + encString("RSWU") + encString(store) + encString(filter.ObjectType) + encString(filter.Relation) + encUint64(suffix)
